@@ -462,6 +462,9 @@ func (s *Schema) compile() error {
 		}
 		compileMu.Lock()
 		defer compileMu.Unlock()
+		// The types which reach the root only through other types have to be
+		// there before the "allOf" rules are compiled: they may use "allOf" too.
+		loader.AddUnnamedTypes(s.inner)
 		loader.CompileAllOf(s.inner)
 		loader.AddUnnamedTypes(s.inner)
 		checker.CheckRootSchema(s.inner)
